@@ -124,6 +124,9 @@ class Board:
             return str(self.vars[index]) if tok is None else str(tok % 256)
         if up == "QT":
             # a nickname is arbitrary text: every third token spells one that begins with "OK" (e.g. "OKeefe")
+            # ... and every fifth one is a board without a nickname: the data line is blank
+            if tok is not None and tok % 5 == 0:
+                return ""
             return self.nickname if tok is None else ("OK%d" % tok if tok % 3 == 0 else "n%d" % tok)
         if up == "QE":
             m1 = QE_CODE[self.mode] if self.motor1 else 0
